@@ -555,19 +555,20 @@ Definition span_style (outer_bg : option Z) (a : attrs) : cstyle :=
             | Some (VColor c) => if c mod 256 =? 0 then outer_bg else Some c
             | _ => outer_bg
             end).
-(* the styled characters of a snapshot element (ruby subtrees carry no prescription here: see the recorded finding) *)
-Fixpoint styled_chars (cur : cstyle) (e : elem) : list (Z * cstyle) :=
+(* the styled characters of a snapshot element.  Ruby: base text (below rb / rbc) is styled like any other text; text below rt / rtc / rp
+   (annotations and their delimiters) may or may not be part of the payload, as in Part A: `annot` selects the reading *)
+Fixpoint styled_chars (annot : bool) (cur : cstyle) (e : elem) : list (Z * cstyle) :=
   match e with
   | Elem a cs =>
       match e_kind a with
       | KText => map (fun c => (c, cur)) (e_text a)
       | KBr => [(10, cur)]
-      | KRuby => []
       | k => let cur' := match k with KSpan => span_style (cs_bg cur) a | _ => cur end in
-             (fix go (l : list elem) : list (Z * cstyle) := match l with [] => [] | c :: l' => styled_chars cur' c ++ go l' end) cs
+             if (match k with KRt | KRtc | KRp => negb annot | _ => false end) then []
+             else (fix go (l : list elem) : list (Z * cstyle) := match l with [] => [] | c :: l' => styled_chars annot cur' c ++ go l' end) cs
       end
   end.
-Definition snapshot_styled (regions : list elem) : list (Z * cstyle) := flat_map (styled_chars plain_style) regions.
+Definition snapshot_styled (annot : bool) (regions : list elem) : list (Z * cstyle) := flat_map (styled_chars annot plain_style) regions.
 Definition visible_char (c : Z) : bool := negb (blank_char c).
 Definition cstyle_eqb (a b : cstyle) : bool :=
   Bool.eqb (cs_b a) (cs_b b) && Bool.eqb (cs_i a) (cs_i b) && Bool.eqb (cs_u a) (cs_u b) &&
@@ -636,7 +637,7 @@ Fixpoint styled_eqb (a b : list (Z * cstyle)) : bool :=
 Definition visible_only (l : list (Z * cstyle)) : list (Z * cstyle) := filter (fun x => visible_char (fst x)) l.
 (* the tags of one interval's payloads say what the snapshot prescribes, character by character (white space aside);
    `formatting = false` prescribes no style at all; SubRip has no background colour *)
-Definition expected_styled (formatting with_bg : bool) (regions : list elem) : list (Z * cstyle) :=
+Definition expected_styled (annot formatting with_bg : bool) (regions : list elem) : list (Z * cstyle) :=
   map (fun x => (fst x, if formatting then (if with_bg then snd x else mkCStyle (cs_b (snd x)) (cs_i (snd x)) (cs_u (snd x)) (cs_color (snd x)) None)
                         else plain_style))
-      (visible_only (snapshot_styled regions)).
+      (visible_only (snapshot_styled annot regions)).
